@@ -67,12 +67,13 @@ def lstep (E : Env) (f : FieldSpec) (xs : List Val) : LOp → List Val × LOut
      | (zs, none) => (zs, .none)
      | (zs, some e) => (zs, .rejected e))
   | .setIdx i v =>
-    (match validate E f v with
-     | .error e => (xs, .rejected e)
-     | .ok v' =>
-       (match resolveIdx xs.length i with
-        | some p => (setAt xs p v', .none)
-        | none => (xs, .err .index)))
+    -- an index that names no item is refused before the new item is looked at (F76)
+    (match resolveIdx xs.length i with
+     | none => (xs, .err .index)
+     | some p =>
+       (match validate E f v with
+        | .error e => (xs, .rejected e)
+        | .ok v' => (setAt xs p v', .none)))
   | .setSlice start stop step it =>
     -- every item is validated first (a list comprehension), then the slice is assigned
     (match mapR (validate E f) (itemsOf it) with
